@@ -204,8 +204,8 @@ def run(ctx):
                        'local names equal to a function name or k are not generated (they would capture it)']
     # whole-pipeline model of Model.main() (single-currency programs): canonical names / defined once for ALL programs
     out.proof = common.proof_status_many([(FAMILY, PROPFILE)] + gen_main2.PROOFS)
-    gen_main.extra(ctx, out, 50, 800)
-    gen_main2.extra(ctx, out)
+    gen_main.extra(ctx, out, 50, 500)
+    gen_main2.extra(ctx, out, 80, 600)
     return out
 
 
